@@ -13,6 +13,7 @@ from ..workloads import specs as W
 from ._spec_common import BUDGET, eval_tree
 
 PROP = "C14"
+ANCHORS = ['dep_logic.specifiers.range:RangeSpecifier.__and__', 'dep_logic.specifiers.range:RangeSpecifier.__or__', 'dep_logic.specifiers.range:RangeSpecifier.__invert__', 'dep_logic.specifiers.union:UnionSpecifier.__and__', 'dep_logic.specifiers.union:UnionSpecifier.__or__', 'dep_logic.specifiers.union:UnionSpecifier.__invert__', 'dep_logic.markers.multi:MultiMarker.of', 'dep_logic.markers.union:MarkerUnion.of', 'dep_logic.utils:union', 'dep_logic.utils:intersection']
 RULE = ("Specifier triples (a, b, c): values of three expression trees over one version pool (so that operands "
         "interact), 15 law instances each: commutativity x2, associativity x2, idempotence x2, absorption x2, "
         "distributivity x2, involution, De Morgan x2, complements x2, compared with ==. Marker triples: three "
